@@ -53,17 +53,37 @@ impl vstd::std_specs::convert::FromSpecImpl<AuthenticationError> for CoreError {
 impl From<AeadError> for CoreError {
     fn from(e: AeadError) -> (r: CoreError) ensures r == CoreError::Aead, { CoreError::Aead }
 }
+impl vstd::std_specs::convert::FromSpecImpl<AeadError> for CoreError {
+    open spec fn obeys_from_spec() -> bool { true }
+    open spec fn from_spec(e: AeadError) -> CoreError { CoreError::Aead }
+}
 impl From<InvalidLength> for CoreError {
     fn from(e: InvalidLength) -> (r: CoreError) ensures r == CoreError::InvalidLength, { CoreError::InvalidLength }
+}
+impl vstd::std_specs::convert::FromSpecImpl<InvalidLength> for CoreError {
+    open spec fn obeys_from_spec() -> bool { true }
+    open spec fn from_spec(e: InvalidLength) -> CoreError { CoreError::InvalidLength }
 }
 impl From<PasswordHashError> for CoreError {
     fn from(e: PasswordHashError) -> (r: CoreError) ensures r == CoreError::PasswordHash, { CoreError::PasswordHash }
 }
+impl vstd::std_specs::convert::FromSpecImpl<PasswordHashError> for CoreError {
+    open spec fn obeys_from_spec() -> bool { true }
+    open spec fn from_spec(e: PasswordHashError) -> CoreError { CoreError::PasswordHash }
+}
 impl From<TryFromSliceError> for CoreError {
     fn from(e: TryFromSliceError) -> (r: CoreError) ensures r == CoreError::TryFromSlice, { CoreError::TryFromSlice }
 }
+impl vstd::std_specs::convert::FromSpecImpl<TryFromSliceError> for CoreError {
+    open spec fn obeys_from_spec() -> bool { true }
+    open spec fn from_spec(e: TryFromSliceError) -> CoreError { CoreError::TryFromSlice }
+}
 impl From<Error> for CoreError {
     fn from(e: Error) -> (r: CoreError) ensures r == CoreError::Io, { CoreError::Io }
+}
+impl vstd::std_specs::convert::FromSpecImpl<Error> for CoreError {
+    open spec fn obeys_from_spec() -> bool { true }
+    open spec fn from_spec(e: Error) -> CoreError { CoreError::Io }
 }
 /// `aead::Error` (aead-0.5): opaque unit struct
 #[derive(Debug)]
@@ -99,6 +119,10 @@ impl vstd::std_specs::convert::FromSpecImpl<CoreError> for VaultError {
 impl From<Error> for VaultError {
     /// `#[from] std::io::Error`
     fn from(e: Error) -> (r: VaultError) ensures r == VaultError::Other, { VaultError::Other }
+}
+impl vstd::std_specs::convert::FromSpecImpl<Error> for VaultError {
+    open spec fn obeys_from_spec() -> bool { true }
+    open spec fn from_spec(e: Error) -> VaultError { VaultError::Other }
 }
 
 pub type VResult<T> = core::result::Result<T, VaultError>;
